@@ -113,12 +113,14 @@ class FnBounds:
     # ---- walking
     def run(self):
         self.consts = {}
+        self.stmt_loops = {}
         self.fptr_facts = {}  # helper name -> {sym: const} valid only where that helper was selected
         self.walk(self.kfn.node.body, [], {}, 0)
         return self
 
     def walk(self, stmts, loops, facts, depth=1):
         for st in stmts:
+            self.stmt_loops[id(st)] = loops
             if isinstance(st, ast.Assign) and len(st.targets) == 1 and isinstance(st.targets[0], ast.Name):
                 nm = st.targets[0].id
                 self.visit_expr(st.value, loops, facts)
